@@ -55,6 +55,8 @@ type Contract struct {
 	Src         string
 	LockFree    []*Node  // mutexes that must not be held at environment calls and at return
 	LockTags    []string
+	Witness     []Clause // postconditions over the function's own locals: proved at its returns, never used at call sites
+	Callback    []Clause // invariants of a callback the function hands to an iterator (FlagSet.Visit)
 	modRefs     []string
 	Trusted     string
 }
@@ -158,7 +160,7 @@ func loadSpecs(repo, libDir string) *SpecDB {
 }
 
 var clauseKeywords = []string{"lockfree", "atomic_only", "rec", "func", "assume", "env", "pred", "spec", "table", "layout", "guarded_by", "requires", "ensures",
-	"modifies", "decreases", "forall-params", "loop", "frame-fresh", "pure", "log", "consts", "trusted", "end"}
+	"modifies", "decreases", "forall-params", "loop", "callback", "witness", "frame-fresh", "pure", "log", "consts", "trusted", "end"}
 
 func startsWithKeyword(s string) string {
 	for _, k := range clauseKeywords {
@@ -365,6 +367,32 @@ func (db *SpecDB) readFile(path, repo string) {
 			if cur != nil {
 				cur.Trusted = rest
 			}
+		case "witness":
+			if cur == nil {
+				fail(fmt.Errorf("witness outside a function contract"))
+				continue
+			}
+			tags, body := splitTags(rest)
+			e, err := parseExpr(body)
+			if err != nil {
+				fail(err)
+				continue
+			}
+			cur.Witness = append(cur.Witness, Clause{Tags: tags, E: e, Text: body, Src: src})
+		case "callback":
+			// callback invariant[tags] E
+			after := strings.TrimSpace(rest)
+			if cur == nil || !strings.HasPrefix(after, "invariant") {
+				fail(fmt.Errorf("bad callback clause"))
+				continue
+			}
+			tags, body := splitTags(strings.TrimPrefix(after, "invariant"))
+			e, err := parseExpr(body)
+			if err != nil {
+				fail(err)
+				continue
+			}
+			cur.Callback = append(cur.Callback, Clause{Tags: tags, E: e, Text: body, Src: src})
 		case "loop":
 			// loop N invariant[tags] E | loop N decreases E
 			f := strings.Fields(rest)
